@@ -116,7 +116,7 @@ CHECKS = {
     "C16": (
         "exploration",
         "exhaustive enumeration of ordered pattern maps x targets x flags through the real init_from_template and CLI, judged by an oracle-side jinja2 rendering",
-        "Every ordered pattern map of size <= 2 (quick) / <= 3 (thorough) over 8 patterns (incl. ones that match only a prefix of the name) x 10 targets x {missing, existing} x overwrite x explicit template x 3 variable maps through the real function, plus 10 maps through `zorg template init` with the map read from YAML in order: existing-and-not-forced files keep bytes and mtime, missing files get exactly the oracle's rendering of the first matching pattern's template body, nothing (no file, no directory) is created without a template, and a second invocation changes nothing. The same contract through `zorg edit TARGET` (a stand-in editor records the file as it is when the editor opens) and `zorg action open` on a line holding [[TARGET]]; and two initialisations in one process where only the first target's pattern captures a variable (function, caller-owned variable map, `zorg edit A B`).",
+        "Every ordered pattern map of size <= 2 (quick) / <= 3 (thorough) over 9 patterns (incl. ones that match only a prefix of the name and one with an optional group that takes no part in the match) x 10 targets x {missing, existing} x overwrite x explicit template x 4 variable maps through the real function, plus 13 maps (all variable maps, incl. a date) through `zorg template init` with the map read from YAML in order: existing-and-not-forced files keep bytes and mtime, missing files get exactly the oracle's rendering of the first matching pattern's template body, nothing (no file, no directory) is created without a template, and a second invocation changes nothing. The same contract through `zorg edit TARGET` (a stand-in editor records the file as it is when the editor opens) and `zorg action open` on a line holding [[TARGET]]; and two initialisations in one process where only the first target's pattern captures a variable (function, caller-owned variable map, `zorg edit A B`).",
         "ZorgTemplateManager's process-global scratch directory is re-created per worker; edit / action open / note move reach the same function.",
         "§4 C16",
     ),
